@@ -170,3 +170,36 @@ func zzC15_builder_selftest() {
 	m.AddOptionBytes(message.ETag, v)
 	symAssert(m.Options()[0].Value[0] == 7, "selftest: must fail")
 }
+
+// a message's own option list - filtered, with options that were inserted out of option-number order - handed back to
+// ResetOptionsTo: the values are copied before anything they live in is reused, so they stay byte-exact
+func zzC15_reset_own() {
+	m := NewMessage(context.Background())
+	q := symBytes("query", 3)
+	e := symBytes("etag", 4)
+	order := symChoose("insertion-order", 2)
+	if order == 0 {
+		m.AddOptionBytes(message.URIQuery, q)
+		m.SetOptionBytes(message.ETag, e)
+		symCover("descending-insertion")
+	} else {
+		m.SetOptionBytes(message.ETag, e)
+		m.AddOptionBytes(message.URIQuery, q)
+	}
+	m.SetObserve(5)
+	drop := []message.OptionID{message.Observe, message.ETag, 0}[symChoose("dropped", 3)]
+	filtered := make(message.Options, 0, 4)
+	var ref []zzRefOpt
+	for _, o := range m.Options() {
+		if o.ID != drop {
+			filtered = append(filtered, o)
+			ref = append(ref, zzRefOpt{o.ID, append([]byte(nil), o.Value...)})
+		}
+	}
+	m.ResetOptionsTo(filtered)
+	symCover("reset-to-own-options")
+	symAssert(zzSameOpts(m.Options(), ref), "the options are exactly the ones handed in, values byte-exact")
+	// and once more with the result itself
+	m.ResetOptionsTo(m.Options())
+	symAssert(zzSameOpts(m.Options(), ref), "resetting a message to its own options changes nothing")
+}
